@@ -3,6 +3,7 @@ import SeqVerif.Model.ActiveIndexProofs
 import SeqVerif.Model.ActiveMerge
 import SeqVerif.Model.ActiveReach
 import SeqVerif.Model.RangeGo
+import SeqVerif.Model.EvalTreeWith
 import SeqVerif.Extracted.C02
 /-!
 # C02 - search returns exactly the matching documents, ordered, limited and counted
@@ -224,6 +225,53 @@ theorem c02_range_wrap_witness :
     RangeGo.drain false RangeGo.maxU32 4 (RangeGo.maxU32 : Int) = ([RangeGo.maxU32, 0, 1, 2], false) ∧
     RangeGo.drain true 0 3 (1 : Int) = ([1, 0, RangeGo.maxU32], false) :=
   RangeGo.wrap_witness
+
+/-! ## every numeric reading of token values
+
+`Spec.searchWith num` / `Leaf.valMatchWith num` (Spec/StoreNum.lean) are the Spec with the meaning of numbers in range
+leaves as a parameter `num : Bytes → Option Int` (e.g. a monotone integer key of `strconv.ParseFloat`); the model's
+`leafTokensWith num` selects the tokens with `valMatchWith num`.  The theorems above are the instance `num = numVal`. -/
+
+theorem c02_search_eq_specWith (num : Bytes → Option Int) (idx : Index) (hwf : WF idx) (hs : SortedDesc idx.ids)
+    (hr : ∀ id ∈ idx.ids, id.rid ≤ maxU64) (q : Query) (from_ to : Nat)
+    (h0 : 0 < from_ ∨ ∀ id ∈ idx.ids, id ≠ ⟨0, 0⟩) (asc : Bool) (limit : Nat) (withTotal : Bool) :
+    EvalTree.searchWith num idx q from_ to asc limit withTotal =
+      Spec.searchWith num (docsOf idx) q from_ to asc limit withTotal :=
+  searchWith_eq_spec num idx hwf hs hr q from_ to h0 asc limit withTotal
+
+theorem c02_active_search_eq_specWith (num : Bytes → Option Int) (a : ActiveIndex.Active) (hwf : ActiveIndex.AWF a)
+    (q : Query) (from_ to : Nat) (asc : Bool) (limit : Nat) (withTotal : Bool) :
+    ActiveIndex.searchWith num a q from_ to asc limit withTotal =
+      Spec.searchWith num (ActiveIndex.arrivalDocs a) q from_ to asc limit withTotal :=
+  ActiveIndex.searchWith_eq_spec num a hwf q from_ to asc limit withTotal
+
+theorem c02_reachable_active_search_eq_specWith (num : Bytes → Option Int) (h : List (List SV.Collector.Meta))
+    (hd : SV.Collector.DistinctBulks h) (hs : SV.Collector.NonEmptyDocs h) (hg : ActiveReach.GoodIDs h) (q : Query)
+    (from_ to : Nat) (asc : Bool) (limit : Nat) (withTotal : Bool) :
+    ActiveIndex.searchWith num (ActiveReach.toActive (SV.Collector.run SV.Collector.Active.empty h)) q from_ to asc
+        limit withTotal =
+      Spec.searchWith num
+        (ActiveIndex.arrivalDocs (ActiveReach.toActive (SV.Collector.run SV.Collector.Active.empty h)))
+        q from_ to asc limit withTotal :=
+  ActiveReach.reachable_searchWith_eq_spec num h hd hs hg q from_ to asc limit withTotal
+
+/-- the fixed-reading definitions are the instances at `numVal`, on the Spec side and on the model side -/
+theorem c02_with_numVal :
+    (∀ l v, Leaf.valMatchWith numVal l v = Leaf.valMatch l v) ∧
+    (∀ q d, docMatchesWith numVal q d = docMatches q d) ∧
+    (∀ docs q f t asc lim wt, Spec.searchWith numVal docs q f t asc lim wt = Spec.search docs q f t asc lim wt) ∧
+    (∀ idx q f t asc lim wt, EvalTree.searchWith numVal idx q f t asc lim wt = EvalTree.search idx q f t asc lim wt) ∧
+    (∀ a q f t asc lim wt, ActiveIndex.searchWith numVal a q f t asc lim wt = ActiveIndex.search a q f t asc lim wt) :=
+  ⟨valMatchWith_numVal, docMatchesWith_numVal, Spec.searchWith_numVal, EvalTree.searchWith_numVal,
+   ActiveIndex.searchWith_numVal⟩
+
+/-- a reading under which `1.5` is a number (key 3, with 1 -> 2 and 2 -> 4): `[1 TO 2]` accepts the token `1.5`,
+which the decimal-integer reading rejects - the parameter matters -/
+example :
+    let num : Bytes → Option Int := fun b => if b = [49] then some 2 else if b = [49, 46, 53] then some 3 else
+      if b = [50] then some 4 else none
+    Leaf.valMatchWith num (.range [110] (some [49]) true (some [50]) true) [49, 46, 53] = true ∧
+      Leaf.valMatch (.range [110] (some [49]) true (some [50]) true) [49, 46, 53] = false := by decide
 
 /-! ## what `Spec.search` promises (so that the equalities above say what the property says) -/
 
